@@ -656,6 +656,13 @@ def validate_bounds(nodes):
                                      (member.name, node.name, member.bound))
 
 
+def validate_names(nodes):
+    """ A definition cannot take the name of a built-in type: every reference to it would mean the built-in. """
+    for node in nodes:
+        if not isinstance(node, Include) and node.name in BUILTIN_SIZES:
+            raise ModelError("'%s' is the name of a built-in type and cannot be defined" % node.name)
+
+
 def validate_sizer_types(nodes):
     """ A sizer is an integer: a builtin one, possibly behind typedefs. Requires cross referenced nodes. """
     for node in nodes:
@@ -672,6 +679,7 @@ def validate_sizer_types(nodes):
 
 
 def evaluate_model(nodes, warn_emitter=lambda x: None):
+    validate_names(nodes)
     validate_bounds(nodes)
     topological_sort(nodes)
     constants = cross_reference(nodes, warn_emitter)
